@@ -638,6 +638,7 @@ def units(tier, seed, label):
         for L in (2, 3, 4):
             us.append(('COV', ch, L, [1, 2], tier, seed))
         us.append(('COV', ch, 4, [1, 2, 3], tier, seed))
+        us.append(('COV', ch, 6, [2], tier, seed))  # three two-site states: all ways of crossing / nesting them
         if not quick:
             us.append(('COV', ch, 5, [1, 2, 3], tier, seed))
     for ch in [c for c in U.CHARGED if c in SAME_DIM]:
